@@ -26,7 +26,7 @@ class Algebra(Part):
     name = "algebra"
     rule = ("triples (a, b, c) of style specs: associativity, null identity (4 spellings of null), field-wise right bias against a dict merge, "
             "Style.combine/chain; non-trivial = all three non-null and at least one field set by two of them")
-    budget = {"quick": (4, 2500), "thorough": (16, 30000)}
+    budget = {"quick": (5, 3000), "thorough": (16, 30000)}
 
     def strategy(self, tier):
         s = GS.style_spec()
@@ -95,7 +95,7 @@ class RoundTrip(Part):
     rule = ("one style spec: parse(str(s)) == s, parse(normalize(str(s))) == s, and a definition written with documented spellings (aliases, "
             "'not X', colour forms, 'on C', 'link URL', random word-group order, extra whitespace) parses to the keyword-built style; "
             "non-trivial = >=2 attributes (one negated or aliased) plus a colour or link")
-    budget = {"quick": (4, 2500), "thorough": (16, 30000)}
+    budget = {"quick": (5, 3000), "thorough": (16, 30000)}
 
     def strategy(self, tier):
         ints = st.lists(st.integers(0, 9), min_size=1, max_size=8)
@@ -169,7 +169,7 @@ class Hashing(Part):
     rule = ("one target style reached by up to 12 construction routes (keywords, parse(str), parse(normalize), sums of a generated partition, combine, "
             "chain, copy, update_link, without_color, from_color, null+s, s+null); for every pair x == y requires hash(x) == hash(y) and dict lookup; "
             "non-trivial = >=2 routes of different kinds compared equal for a non-null style")
-    budget = {"quick": (4, 2500), "thorough": (16, 30000)}
+    budget = {"quick": (5, 3000), "thorough": (16, 30000)}
 
     def strategy(self, tier):
         return st.builds(lambda s, cut, extra: {"s": s, "cut": cut, "extra": extra}, GS.style_spec(), st.lists(st.integers(0, 2), min_size=1, max_size=6), GS.color_spec())
